@@ -4,6 +4,7 @@ mod alloc;
 mod conn;
 mod framing;
 mod rng;
+mod tables;
 
 use std::io::Write;
 
@@ -46,6 +47,15 @@ fn main() {
             let bias: u64 = arg_val(&args, "--bias").and_then(|s| s.parse().ok()).unwrap_or(0);
             conn::generate(seed, n, bias, &mut lines, &mut st);
             stats_json = st.json();
+        }
+        "conn-matrix" => {
+            let mut st = conn::c16::CaseStats::new();
+            let (cells, unreachable) = conn::c16::gen_matrix(&mut lines, &mut st);
+            stats_json = format!("{{\"cells\":{},\"unreachable_cells_skipped\":{},\"detail\":{}}}", cells, unreachable, st.json());
+        }
+        "tables" => {
+            let dir = arg_val(&args, "--dir").unwrap_or_else(|| "/verif/coq/theories/Generated".to_string());
+            tables::write_sendable_v(&format!("{}/ObservedSendable.v", dir));
         }
         "conn-replay" => {
             lines.push(conn::replay(&args[2..]));
